@@ -365,6 +365,70 @@ theorem connectOp_facts {cfg : IdCfg} {s : LSys} (h : LInv cfg s) (allow : Bool)
   · simp only [hc, Bool.false_eq_true, if_false]
     exact handshake_facts (cl := s.cl) (g := s.mg) h allow
 
+/-- a handshake the manager answers too late: the client ends disconnected (fix 5d9f32d), whatever the manager then
+does with the CONNECT_V2 -/
+theorem lateHandshake_facts {cfg : IdCfg} {cl : Cl} {g : Mgr} (h : LInv cfg ⟨cl, g⟩) (allow : Bool) :
+    PhaseFacts cfg cl.created
+      (⟨{ cl with conn := (g.accept true).2, connected := false, modId := if cl.created == 0 then 0 else cl.modId }, [],
+        .ackTimeout, some (if cl.created == 0 then 0 else cl.modId),
+        ((g.accept true).1.hello cfg (g.accept true).2 (if cl.created == 0 then 0 else cl.modId) allow).2⟩,
+       ((g.accept true).1.hello cfg (g.accept true).2 (if cl.created == 0 then 0 else cl.modId) allow).1) := by
+  have hreq : (if cl.created == 0 then 0 else cl.modId) = cl.created := by
+    by_cases hc : cl.created = 0
+    · simp [hc]
+    · have := h.static hc
+      simp only at this
+      simp [hc, this]
+  have hbA : ∀ r ∈ (g.accept true).1.conns, r.cid < (g.accept true).1.next := by
+    intro r hr
+    simp only [Mgr.accept, List.mem_append, List.mem_singleton] at hr ⊢
+    rcases hr with hr | rfl
+    · have := h.bound r hr; simp only at this; omega
+    · simp
+  have hmA : ∀ r ∈ (g.accept true).1.conns, MInv r.m := by
+    intro r hr
+    simp only [Mgr.accept, List.mem_append, List.mem_singleton] at hr
+    rcases hr with hr | rfl
+    · exact h.minv r hr
+    · exact minv_init
+  have hcurA : (g.accept true).1.cursor < cfg.maxDyn := h.cursor
+  simp only [hreq]
+  refine ⟨⟨h.cinv, ?_, ?_, ?_, ?_, ?_⟩, rfl, ?_⟩
+  · intro r hr
+    rcases hello_cases cfg (g.accept true).1 (g.accept true).2 cl.created allow hcurA with
+      ⟨id, off, _, he, _, _⟩ | ⟨off, _, he⟩
+    · rw [he] at hr
+      obtain ⟨r0, hr0, rfl⟩ := mem_upd (g := (g.accept true).1) hr
+      split <;> exact hmA r0 hr0
+    · rw [he] at hr
+      exact hmA r (mem_drop hr)
+  · intro hc; simp at hc
+  · intro _; rfl
+  · intro r hr
+    rcases hello_cases cfg (g.accept true).1 (g.accept true).2 cl.created allow hcurA with
+      ⟨id, off, _, he, _, _⟩ | ⟨off, _, he⟩
+    · rw [he] at hr ⊢
+      obtain ⟨r0, hr0, rfl⟩ := mem_upd (g := (g.accept true).1) hr
+      have := hbA r0 hr0
+      split <;> simpa [Mgr.upd] using this
+    · rw [he] at hr ⊢
+      have := hbA r (mem_drop hr)
+      simpa [Mgr.drop] using this
+  · rcases hello_cases cfg (g.accept true).1 (g.accept true).2 cl.created allow hcurA with
+      ⟨id, off, hoff, he, _, _⟩ | ⟨off, hoff, he⟩ <;> (rw [he]; exact hoff)
+  · intro q hq
+    simp only [Option.some.injEq] at hq
+    exact ⟨hq.symm, fun hok => by cases hok⟩
+
+theorem connectLate_facts {cfg : IdCfg} {s : LSys} (h : LInv cfg s) (allow : Bool) :
+    PhaseFacts cfg s.cl.created (connectLateOp cfg s allow) ∧ (connectLateOp cfg s allow).1.req.isSome = true := by
+  unfold connectLateOp
+  by_cases hc : s.cl.connected = true
+  · simp only [hc, if_true]
+    exact ⟨lateHandshake_facts (disconnectOp_inv h) allow, rfl⟩
+  · simp only [hc, Bool.false_eq_true, if_false]
+    exact ⟨lateHandshake_facts (cl := s.cl) (g := s.mg) h allow, rfl⟩
+
 /-- the subscription tables of the current connection replaced by tables that agree with the client's new sets -/
 theorem setM_inv {cfg : IdCfg} {s : LSys} (h : LInv cfg s) (hc : s.cl.connected = true) {c : CState} {m : MState}
     (ha : Agree c m) : LInv cfg ⟨{ s.cl with sub := c }, s.mg.setM s.cl.conn m⟩ := by
@@ -438,7 +502,7 @@ theorem mgrNotices_inv {cfg : IdCfg} {s : LSys} (h : LInv cfg s) :
 
 /-- **Every phase of every call** keeps the invariant and satisfies `PhaseFacts`; every call has a phase; a
 `connect` writes a CONNECT_V2 in each of its phases. -/
-theorem lstep_facts {cfg : IdCfg} {s : LSys} (h : LInv cfg s) (op : LOp) (ht : op.timely = true) :
+theorem lstep_facts {cfg : IdCfg} {s : LSys} (h : LInv cfg s) (op : LOp) :
     (∀ x ∈ lstep cfg s op, PhaseFacts cfg s.cl.created x) ∧ lstep cfg s op ≠ [] ∧
     (op.isConnect = true → ∀ x ∈ lstep cfg s op, x.1.req.isSome = true) := by
   have hsub : ∀ sop : Op, (∀ x ∈ (if s.cl.connected = true then subPhases s sop else [(ncPhase s.cl, s.mg)]),
@@ -488,7 +552,11 @@ theorem lstep_facts {cfg : IdCfg} {s : LSys} (h : LInv cfg s) (op : LOp) (ht : o
       fun ha => by simp [LOp.isConnect] at ha⟩
   | lostRead n => exact ⟨(hlose n).1, (hlose n).2, fun ha => by simp [LOp.isConnect] at ha⟩
   | lostSend n => exact ⟨(hlose n).1, (hlose n).2, fun ha => by simp [LOp.isConnect] at ha⟩
-  | connectLate a => simp [LOp.timely] at ht
+  | connectLate a =>
+    simp only [lstep]
+    have := connectLate_facts h a
+    exact ⟨fun x hx => by rw [List.mem_singleton.1 hx]; exact this.1, by simp,
+      fun _ x hx => by rw [List.mem_singleton.1 hx]; exact this.2⟩
   | ctlLost k l n =>
     refine (fun (p : _ ∧ _) => ⟨p.1, p.2, fun ha => by simp [LOp.isConnect] at ha⟩) ?_
     simp only [lstep]
@@ -519,20 +587,19 @@ theorem lafter_mem (s : LSys) : ∀ (xs : List (LPhase × Mgr)), xs ≠ [] →
     obtain ⟨x, hx, he⟩ := lafter_mem s (y :: r) (by simp)
     exact ⟨x, by simp [hx], by simpa [lafter] using he⟩
 
-theorem lstep_inv {cfg : IdCfg} {s : LSys} (h : LInv cfg s) (op : LOp) (ht : op.timely = true) :
+theorem lstep_inv {cfg : IdCfg} {s : LSys} (h : LInv cfg s) (op : LOp) :
     LInv cfg (lafter s (lstep cfg s op)) ∧ (lafter s (lstep cfg s op)).cl.created = s.cl.created := by
-  obtain ⟨hf, hne, _⟩ := lstep_facts h op ht
+  obtain ⟨hf, hne, _⟩ := lstep_facts h op
   obtain ⟨x, hx, he⟩ := lafter_mem s _ hne
   rw [he]
   exact ⟨(hf x hx).inv, (hf x hx).same⟩
 
-theorem lrun_inv {cfg : IdCfg} : ∀ (ops : List LOp) {s : LSys}, LInv cfg s → ops.all LOp.timely = true →
+theorem lrun_inv {cfg : IdCfg} : ∀ (ops : List LOp) {s : LSys}, LInv cfg s →
     LInv cfg (lrun cfg s ops) ∧ (lrun cfg s ops).cl.created = s.cl.created
-  | [], _, h, _ => ⟨h, rfl⟩
-  | op :: ops, s, h, ht => by
-    simp only [List.all_cons, Bool.and_eq_true] at ht
-    obtain ⟨h1, h2⟩ := lstep_inv h op ht.1
-    obtain ⟨h3, h4⟩ := lrun_inv ops h1 ht.2
+  | [], _, h => ⟨h, rfl⟩
+  | op :: ops, s, h => by
+    obtain ⟨h1, h2⟩ := lstep_inv h op
+    obtain ⟨h3, h4⟩ := lrun_inv ops h1
     exact ⟨h3, by rw [← h2]; exact h4⟩
 
 /-! ### from the invariant to what can be observed -/
